@@ -175,6 +175,10 @@ def scenarios(rng: random.Random, tier: str):
             e2e = rng.choice([0, 0, n()])
             # (a request whose header carries no application id gets the application's)
             msg = nodegen.ccr(0, e2e, "node.local", realm, app=rng.choice([4, 4, 0]))
+            if rng.random() < 0.3:
+                # a Destination-Host in the request (any peer, ready or not, eligible or not, or nobody the node knows)
+                # changes nothing about where it may go
+                msg += ",dh=" + rng.choice(NAMES + ["nobody.x"])
             wait = []
             k = rng.random()
             # the harness cannot know the hop-by-hop id the node will draw; answers are scripted from the
@@ -231,6 +235,11 @@ def scenarios(rng: random.Random, tier: str):
     inner = ("req_0_" + nodegen.ccr(0, 0, "node.local", "realm2.local") + "_2_" +
              "rx~0~" + nodegen.cca(2001, 268435464, "peer2.x"))
     out.append(pre + f" | req 0 {nodegen.ccr(0, 0, 'node.local')} 3 {inner}")
+    # Destination-Host naming a ready peer that is not configured for the submitting application (and one that is)
+    predh = (CFG + " | start | acc | rx 0 " + nodegen.cer("peer2.x", "4", n(), n()) + " | acc | rx 1 " + nodegen.cer("peer3.x", "4", n(), n()) +
+             " | acc | rx 2 " + nodegen.cer("peer4.x", "4", n(), n()))
+    for dh in ("peer3.x", "peer4.x", "peer1.x", "nobody.x"):
+        out.append(predh + f" | req 0 {nodegen.ccr(0, 0, 'node.local')},dh={dh} 1 | req 1 {nodegen.ccr(0, 0, 'node.local', 'realm2.local')},dh={dh} 1")
     # two ready peers of one application, one of them awaiting the answer to the node's own watchdog request: both are
     # eligible, the default callback takes the one that has sent fewer requests
     lb = ("NODE host=node.local;realm=realm.local;idle=9999;dwa=9999;peer:peer2.x,realm.local,0,0,30,1,0,-,-,-,5;"
